@@ -8,6 +8,8 @@ Structural clauses decided (DESIGN.md §5 C15):
  R3 fail-open: `apply` returns true when nothing can be extracted; otherwise exactly should_process(..)
  R4 an admitted packet continues on the same code as an unfiltered one
  R6 should_process receives (src_ip, dst_ip, src_port, dst_port) of the quick extractor in that order
+ R9 the three raw_filter.rs copies agree per helper on the constants examined and the byte-order conversions applied
+ R8 in parallel mode every worker is started with a clone of the same filter (nothing is moved out of the shared value)
  R7 the quick extractor reads the endpoints at the IPv4/IPv6/TCP header offsets (RFC 791 / 8200 / 793) in each copy
 """
 from ..engine import cfg as C
@@ -299,7 +301,109 @@ def rule_layout(ctx):
     ctx.floor("R7", "quick extractor bodies", n, 6)
 
 
+def _decode_signature(P, b):
+    """what a link/IP decoding helper looks at: the integer constants it compares or indexes with and the byte-order
+    conversions it applies (insensitive to statement order, locals, logging)"""
+    consts = set()
+    convs = []
+    for i, j, s in b.iter_stmts():
+        if s["k"] != "assign":
+            continue
+        r = s["r"]
+        ops = []
+        if r["k"] in ("binop", "checked_binop"):
+            ops = [r["a"], r["b"]]
+        elif r["k"] == "use":
+            ops = [r["o"]]
+        elif r["k"] == "agg":
+            ops = r["ops"]
+        for o in ops:
+            if "k" in o:
+                v = T.const_value(o["k"])
+                if isinstance(v[1], int) and not isinstance(v[1], bool):
+                    consts.add(v[1])
+        # constant indices / sub-slices
+        def proj_consts(pl):
+            for x in pl.get("pr", []):
+                if isinstance(x, dict) and "ci" in x:
+                    consts.add(x["ci"])
+        if r["k"] == "use":
+            pl = r["o"].get("c") or r["o"].get("m")
+            if pl:
+                proj_consts(pl)
+        if r["k"] == "ref":
+            proj_consts(r["p"])
+    for blk in b.blocks:
+        tt = blk["t"]
+        if tt["k"] == "switch" and tt.get("ty") not in ("bool", "isize"):
+            for (v, _tgt) in tt.get("arms", []):
+                if isinstance(v, int):
+                    consts.add(v)
+    for blk, t in b.calls():
+        n = callee_of(t)
+        if Q.in_tracing(t["span"]):
+            continue
+        if n.endswith(("from_be_bytes", "from_le_bytes", "from_ne_bytes", "to_be", "to_le", "swap_bytes", "from_be", "from_le")):
+            convs.append(n.rsplit("::", 1)[-1])
+        for a in t["args"]:
+            if "k" in a:
+                v = T.const_value(a["k"])
+                if isinstance(v[1], int) and not isinstance(v[1], bool):
+                    consts.add(v[1])
+    return (tuple(sorted(consts)), tuple(sorted(convs)))
+
+
+def rule_siblings(ctx):
+    """R9: the three copies of the quick extractor (raw_filter.rs in tcp / http / tls) decode the same link types and header
+    fields: per helper, the set of constants examined and the byte-order conversions agree across the copies.  Only copies that
+    exist side by side are compared - there is no stored reference; a change made consistently in all copies passes."""
+    P = ctx.program
+    fams = (("huginn_net_tcp", "tcp"), ("huginn_net_http", "http"), ("huginn_net_tls", "tls"))
+    names = ("try_ethernet", "try_null_datalink", "try_raw_ip", "extract_ipv4_info", "extract_ipv6_info", "extract_quick_info")
+    n = 0
+    for fn in names:
+        sigs = {}
+        bodies = {}
+        for crate, fam in fams:
+            b = P.bodies.get("%s::raw_filter::%s" % (crate, fn))
+            if b is not None:
+                sigs[fam] = _decode_signature(P, b)
+                bodies[fam] = b
+        if len(sigs) < 2:
+            ctx.cannot("R9", "raw_filter::%s:agree" % fn, "fewer than two copies of raw_filter::%s found" % fn)
+            continue
+        n += 1
+        groups = {}
+        for fam, sg in sigs.items():
+            groups.setdefault(sg, []).append(fam)
+        if len(groups) == 1:
+            ctx.ok("R9", "raw_filter::%s:agree" % fn, "%d copies examine the same constants %s with conversions %s" % (len(sigs), list(list(groups)[0][0])[:12], list(list(groups)[0][1])), ctx.loc(bodies[sorted(bodies)[0]]))
+            continue
+        # the odd one out is the copy that differs from the majority
+        major = max(groups.items(), key=lambda kv: len(kv[1]))
+        for sg, fs in groups.items():
+            if sg is major[0]:
+                continue
+            dc = sorted(set(sg[0]) ^ set(major[0][0]))
+            dv = (list(sg[1]), list(major[0][1]))
+            for fam in fs:
+                ctx.fail("R9", "raw_filter::%s:agree:%s" % (fn, fam),
+                         "the %s copy of raw_filter::%s decodes differently from the %s cop%s: constants differing %s, byte-order conversions %s vs %s - the same frame is "
+                         "then filtered in one analyzer and let through (or analysed unfiltered) in another" % (fam, fn, "/".join(major[1]), "ies" if len(major[1]) > 1 else "y", dc, dv[0], dv[1]),
+                         ctx.loc(bodies[fam]))
+    ctx.floor("R9", "raw_filter helpers present in several crates", n, 6)
+
+
+def rule_workers(ctx):
+    """R8: in parallel mode every worker applies the same filter (the spawn closure captures a clone of it)"""
+    from . import _workers as W
+    for crate, fam in (("huginn_net_tcp", "tcp"), ("huginn_net_http", "http"), ("huginn_net_tls", "tls")):
+        W.uniform_workers(ctx, ctx.program, crate, fam, "R8")
+
+
 def run(ctx):
+    rule_siblings(ctx)
+    rule_workers(ctx)
     rule_paths(ctx)
     rule_apply(ctx)
     rule_layout(ctx)
